@@ -64,7 +64,7 @@ Print Assumptions C30_unstaged_refused_reset.
 Theorem C30_unstaged_refused_checkout : forall o s p e,
   co_force o = false -> co_keep o = false ->
   In (p, e) (idx s) -> lookup p (wt s) <> Some e ->
-  exists er s', checkout o s = (Some er, s') /\ idx s' = idx s /\ wt s' = wt s.
+  exists er, checkout o s = (Some er, s).
 Proof. exact checkout_merge_refuses_unstaged. Qed.
 Print Assumptions C30_unstaged_refused_checkout.
 
